@@ -321,14 +321,50 @@ def string_values(reps, maxlen):
     return sorted(out, key=lambda x: (len(x), x))
 
 
+def escape_class(value, err=""):
+    """why a STRING value cannot be a python literal body when the backslash
+    pairs are passed through: an incomplete \\x \\u \\U \\N escape, or a raw
+    carriage return (None: some other reason)"""
+    i = 0
+    while i < len(value):
+        if value[i] == "\\" and i + 1 < len(value):
+            c = value[i + 1]
+            need = {"x": 2, "u": 4, "U": 8}.get(c)
+            if need is not None:
+                digits = value[i + 2:i + 2 + need]
+                if len(digits) < need or any(
+                        d not in "0123456789abcdefABCDEF" for d in digits):
+                    return f"incomplete \\{c} escape"
+            if c == "N":
+                return "incomplete \\N escape"
+            i += 2
+            continue
+        i += 1
+    if "\r" in value and "unicodeescape" not in err:
+        return "raw carriage return"
+    return None
+
+
 def string_transducer(chk, gen, TF, tier):
     """Class-exhaustive check of the STRING escaping loop."""
     enc = gen.it.module("vyxal.encoding")
     comp = enc.get("compression")
+    # classes of the *input* (escape, delimiter, compression characters) and
+    # of the *output* language: in a python literal x u U N after a backslash
+    # demand hex digits / a name, a raw carriage return ends the line
     reps = ["\\", "`", '"', "'", "\n", "a", "n", " ", comp[0], comp[-1],
             "{", "0"]
     maxlen = 4 if tier == "thorough" else 3
     vals = string_values(reps if tier == "thorough" else reps[:9], maxlen)
+    py = ["x", "u", "U", "N", "\r", "g", "0", "{", "}"]
+    seen = set(vals)
+    for k in (1, 2, 3):
+        for t in itertools.product(["\\", "a"] + py, repeat=k):
+            v = "".join(t)
+            if any(c in v for c in py[:5]) and v not in seen and not (
+                    len(v) - len(v.rstrip("\\"))) % 2:
+                seen.add(v)
+                vals.append(v)
     # the dictionary decoder distinguishes compression characters by their
     # position (short-dictionary range or not, pair value in range or not):
     # every character alone / before a plain one, and all strings <= 3 over
@@ -366,6 +402,9 @@ def string_transducer(chk, gen, TF, tier):
                 continue
             err = compiles(in_block(text, 1))
             spelled = ("`" + s + "`") if len(s) != 2 else ("‛" + s)
+            why = escape_class(s, err) if err else None
+            if why:
+                cons = f"{cons}:{why}"
             chk.ob("C02.string-literal-wellformed", cons, err is None,
                    f"STRING value {s!r} is emitted as {text.strip()!r}: "
                    f"{err}", TF, witness=spelled,
